@@ -97,6 +97,14 @@ theorem inv9_step {cs cs' : CS} (h : Inv9 cs) (st : Step cs cs') : Inv9 cs' := b
       · have := h.ids.owners x hx t ht
         show t < cs.n + 1; omega
   | env b => exact ⟨LockInv_rec _ h.lock rfl rfl rfl rfl rfl, h.close, ⟨h.ids.unused, h.ids.owners⟩⟩
+  | recv f hq =>
+    obtain ⟨_, _, c3, c4, _⟩ := recv_core cs.s f hq
+    refine ⟨LockInv_rec _ h.lock rfl rfl rfl rfl rfl, ?_, ⟨h.ids.unused, h.ids.owners⟩⟩
+    intro hc
+    have hc' : cs.s.closed = true := by rw [← c3]; exact hc
+    rcases h.close hc' with ⟨u, hu⟩ | hs
+    · exact Or.inl ⟨u, hu⟩
+    · right; show (cs.s.handleFrame f).1.shut = true; rw [c4]; exact hs
 
 theorem inv9_reach (s : Sess) (hc : s.closed = false) {cs : CS} (r : Reach (initCS s) cs) : Inv9 cs := by
   induction r with
@@ -109,6 +117,7 @@ theorem closed_forever {cs cs' : CS} (st : Step cs cs') (h : cs.s.closed = true)
   | act _ t hm => exact (micro_close _ _ t hm).1 h
   | spawn k _ _ _ => exact h
   | env b => exact h
+  | recv f hq => show (cs.s.handleFrame f).1.closed = true; rw [(recv_core cs.s f hq).2.2.1]; exact h
 
 /-- T9.1c `closed_then_shut`: in every reachable state of a session that started open: if it
 is closed and nobody is inside `close()` any more, the transport has been shut down. -/
